@@ -16,11 +16,13 @@ class Live:
         self.mocks, self.seqs, self.slots, self.objs, self.mons, self.trs = set(), set(), {}, set(), {}, []
         self.deadseq_users = False
 
-def expect_line(slot, shape, mock, p=((0, 0), (0, 0)), w=((0, 0), (0, 0), (0, 0)), se=(0, 0, 0), retv=None, lo=1, hi=1, q=(0, 0)):
+def expect_line(slot, shape, mock, p=((0, 0), (0, 0)), w=((0, 0), (0, 0), (0, 0)), se=(0, 0, 0), retv=None, lo=1, hi=1, q=(0, 0), nest=None):
     if retv is None:
         retv = 100 * slot + shape
     v = [slot, shape, mock, p[0][0], p[0][1], p[1][0], p[1][1], w[0][0], w[0][1], w[1][0], w[1][1], w[2][0], w[2][1],
          se[0], se[1], se[2], retv, lo, hi, q[0], q[1]]
+    if nest:
+        v += list(nest)
     return 'expect ' + ' '.join(str(x) for x in v)
 
 class Profile:
@@ -79,7 +81,11 @@ class Profile:
             p = (rnd.choice(P.terms), rnd.choice(P.terms))
             w = tuple(rnd.choice(P.terms) if rnd.random() < 0.6 else (0, 0) for _ in range(3))
             se = tuple(rnd.choice(P.se_beh) for _ in range(3))
-            add(expect_line(s, sh, m, p, w, se, 100 * s + rnd.randint(0, 9), lo, hi, (q[0], q[1])))
+            nest = None
+            if 3 in se:
+                # the effect calls a one-parameter function of some live mock (f(int) or v(int)) with an argument of the domain
+                nest = (rnd.choice(sorted(L.mocks)), rnd.choice([1, 1, 4]), rnd.choice(P.args), 0)
+            add(expect_line(s, sh, m, p, w, se, 100 * s + rnd.randint(0, 9), lo, hi, (q[0], q[1]), nest))
             if not (d['rt'] and lo > hi):
                 L.slots[s] = sh
         elif k == 'call':
@@ -177,7 +183,7 @@ PROFILES = {
                       bounds=((0, 0), (0, 0), (1, 1), (0, INF), (1, 2)), prelude=('mock',)),
     'clauses': Profile('clauses', [4, 8, 16, 21, 25, 31, 41, 51, 15, 55, 3, 10, 13],
                        dict(mock=0.5, seq=1, expect=8, call_live=14, call=3, release=2), nmock=1, nseq=2,
-                       se_beh=(0, 0, 0, 0, 1, 2), prelude=('mock', 'seq', 'seq'),
+                       se_beh=(0, 0, 0, 0, 1, 2, 3, 3), prelude=('mock', 'seq', 'seq'),
                        bounds=((1, 1), (0, INF), (1, 3), (2, 2))),
     'deathwatch': Profile('deathwatch', [5, 2],
                           dict(obj=6, watch=7, unwatch=4, dobj=6, cpobj=2, mvobj=2, asobj=2, masobj=2, seq=1, mock=0.3,
@@ -191,7 +197,7 @@ PROFILES = {
                               dobj=0.7), nmock=2, nseq=1, prelude=('mock', 'seq')),
     'trace': Profile('trace', [1, 2, 4, 15, 16, 50, 51, 55, 30, 40, 12, 9],
                      dict(mock=0.5, expect=8, call=3, call_live=14, release=2, tracer=5, dtracer=4), nmock=1,
-                     se_beh=(0, 0, 0, 1, 2), prelude=('mock',), bounds=((1, 1), (0, INF), (1, 3))),
+                     se_beh=(0, 0, 0, 1, 2, 3), prelude=('mock',), bounds=((1, 1), (0, INF), (1, 3))),
 }
 
 def gen(profile, nseg, seed, prefix=None):
